@@ -226,6 +226,19 @@ func (c *Ctx) Count(name string) { c.ex.Stats.Counters[name]++ }
 // CountN adds to a named counter.
 func (c *Ctx) CountN(name string, n int64) { c.ex.Stats.Counters[name] += n }
 
+// NotExhaustive records that something inside the bound was not covered by this execution
+// (the note is kept once).
+func (c *Ctx) NotExhaustive(note string) {
+	st := c.ex.Stats
+	st.Exhaustive = false
+	for _, n := range st.CapNotes {
+		if n == note {
+			return
+		}
+	}
+	st.CapNotes = append(st.CapNotes, note)
+}
+
 // Sample offers a sample case; the first few per run are kept.
 func (c *Ctx) Sample(v any) {
 	if len(c.ex.Stats.Samples) < c.ex.maxSamples {
